@@ -150,9 +150,17 @@ def coq_eval(prop, imports, terms, per_file=250, timeout=900, tag='cases', prelu
         return []
     wd = os.path.join(WORK, prop)
     os.makedirs(wd, exist_ok=True)
+    # file names are private to this process, so that overlapping runs of one property never touch each other's
+    # shards; leftovers of earlier runs are purged when older than two hours
+    now = time.time()
     for f in os.listdir(wd):
-        if f.startswith(tag + '_'):
-            os.unlink(os.path.join(wd, f))
+        fp = os.path.join(wd, f)
+        try:
+            if (f.startswith(tag + '_') or f.startswith('.' + tag + '_')) and now - os.path.getmtime(fp) > 7200:
+                os.unlink(fp)
+        except OSError:
+            pass
+    tag = f'{tag}_{os.getpid()}'
     shards = [terms[i:i + per_file] for i in range(0, len(terms), per_file)]
     names = []
     for k, sh in enumerate(shards):
@@ -196,6 +204,12 @@ def coq_eval(prop, imports, terms, per_file=250, timeout=900, tag='cases', prelu
         running = still
         if running:
             time.sleep(0.05)
+    for f in os.listdir(wd):
+        if f.startswith(tag + '_') or f.startswith('.' + tag + '_'):
+            try:
+                os.unlink(os.path.join(wd, f))
+            except OSError:
+                pass
     return [r for rows in results for r in rows]
 
 
